@@ -68,3 +68,271 @@ theorem colorCodes_named (T : Tables) (sp : Char → Bool) (depth : Depth) (hd :
   have : (depth == Depth.d1) = false := by cases depth <;> simp_all
   simp [hemp, this, hcode]
 end Ptk.C19
+namespace Ptk.C19
+open Ptk.Py
+
+/-- the flag parameters the encoder appends after the colours -/
+def flagCodes (a : Attrs) : List Nat :=
+  (if truthy a.bold then [1] else []) ++ ((if truthy a.italic then [3] else []) ++
+  ((if truthy a.blink then [5] else []) ++ ((if truthy a.underline then [4] else []) ++
+  ((if truthy a.reverse then [7] else []) ++ ((if truthy a.hidden then [8] else []) ++
+  ((if truthy a.strike then [9] else []) ++ []))))))
+
+theorem sgrCodes_eq (T : Tables) (sp : Char → Bool) (depth : Depth) (a : Attrs) :
+    sgrCodes T sp depth a =
+      colorsToCode T sp depth (a.color.getD []) (a.bgcolor.getD []) ++ flagCodes a := by
+  unfold sgrCodes flagCodes
+  simp only [List.append_assoc, List.append_nil]
+
+theorem sgr_flags (T : Tables) (hT : EncDecOk T) (st : Sgr) (a : Attrs) :
+    sgrLoop T st (flagCodes a) =
+      { st with bold := st.bold || truthy a.bold, italic := st.italic || truthy a.italic,
+                blink := st.blink || truthy a.blink, underline := st.underline || truthy a.underline,
+                reverse := st.reverse || truthy a.reverse, hidden := st.hidden || truthy a.hidden,
+                strike := st.strike || truthy a.strike } := by
+  unfold flagCodes
+  rw [sgr_flag1 T hT, sgr_flag3 T hT, sgr_flag5 T hT, sgr_flag4 T hT, sgr_flag7 T hT, sgr_flag8 T hT,
+    sgr_flag9 T hT]
+  simp [sgrLoop]
+
+theorem sgr_256_fg (T : Tables) (hT : EncDecOk T) (st : Sgr) (m : Nat) (rest : List Nat) :
+    sgrLoop T st (38 :: 5 :: m :: rest) = sgrLoop T { st with color := lookup m T.dec256 } rest := by
+  have := hT.ctl 38 (by simp)
+  rw [sgrLoop.eq_def]; simp [this.1, this.2]
+
+theorem sgr_256_bg (T : Tables) (hT : EncDecOk T) (st : Sgr) (m : Nat) (rest : List Nat) :
+    sgrLoop T st (48 :: 5 :: m :: rest) = sgrLoop T { st with bgcolor := lookup m T.dec256 } rest := by
+  have := hT.ctl 48 (by simp)
+  rw [sgrLoop.eq_def]; simp [this.1, this.2]
+
+/-- the colour the decoder holds after an 8-bit escape: the ANSI name, or the decoder's spelling of
+    the palette entry chosen by the 256-colour map -/
+def decColor8 (T : Tables) (c : Text) : Option Text :=
+  if c = [] ∨ c = kwDefault then none
+  else if c ∈ T.ansiNames then some c else lookup (closest256 T.pal256 (hexRgb c)) T.dec256
+
+theorem colorCodes_noColor (T : Tables) (hT : EncDecOk T) (sp : Char → Bool) (hsp : SpOk sp) (depth : Depth)
+    (fgc bgc fa c : Text) (bg : Bool) (hc : c = [] ∨ c = kwDefault) :
+    colorCodes T sp depth fgc bgc fa c bg = ([], fa) := by
+  rcases hc with rfl | rfl
+  · simp [colorCodes]
+  · have hlk : lookup kwDefault (if bg then T.bg else T.fg) = none := by
+      apply lookup_eq_none
+      intro kv hkv heq
+      apply hT.notDefault
+      rw [← heq]
+      cases bg
+      · exact hT.fgKeys kv (by simpa using hkv)
+      · exact hT.bgKeys kv (by simpa using hkv)
+    have hemp : (kwDefault).isEmpty = false := by decide
+    unfold colorCodes
+    simp [hemp, hlk, colorNameToRgb_default sp hsp]
+
+theorem colorCodes_name (T : Tables) (hT : EncDecOk T) (sp : Char → Bool) (depth : Depth) (hd : depth ≠ .d1)
+    (fgc bgc fa c : Text) (bg : Bool) (hn : c ∈ T.ansiNames) :
+    ∃ code, lookup c (if bg then T.bg else T.fg) = some code ∧
+      colorCodes T sp depth fgc bgc fa c bg = ([code], fa) := by
+  have hne : c ≠ [] := (hT.names c hn).1
+  have : ∃ code, lookup c (if bg then T.bg else T.fg) = some code := by
+    cases bg
+    · obtain ⟨code, h, _⟩ := hT.fg c hn; exact ⟨code, by simpa using h⟩
+    · obtain ⟨code, h, _⟩ := hT.bg c hn; exact ⟨code, by simpa using h⟩
+  obtain ⟨code, hcode⟩ := this
+  exact ⟨code, hcode, colorCodes_named T sp depth hd fgc bgc fa c bg code hne hcode⟩
+
+theorem valid_cases (T : Tables) (c : Text) (hc : ValidColor T c) (h1 : ¬(c = [] ∨ c = kwDefault))
+    (h2 : c ∉ T.ansiNames) : IsHex6 c := by
+  rcases hc with h | h | h | h
+  · exact absurd (Or.inl h) h1
+  · exact absurd (Or.inr h) h1
+  · exact absurd h h2
+  · exact h
+
+theorem decColor8_fg (T : Tables) (hT : EncDecOk T) (sp : Char → Bool) (hsp : SpOk sp)
+    (fgc bgc fa c : Text) (hc : ValidColor T c) (st : Sgr) (hst : st.color = none) (rest : List Nat) :
+    sgrLoop T st ((colorCodes T sp .d8 fgc bgc fa c false).1 ++ rest) =
+      sgrLoop T { st with color := decColor8 T c } rest ∧
+    (colorCodes T sp .d8 fgc bgc fa c false).2 = fa := by
+  unfold decColor8
+  by_cases h1 : c = [] ∨ c = kwDefault
+  · rw [colorCodes_noColor T hT sp hsp .d8 fgc bgc fa c false h1, if_pos h1]
+    simp [← hst]
+  · by_cases h2 : c ∈ T.ansiNames
+    · obtain ⟨code, hcode, hcc⟩ := colorCodes_name T hT sp .d8 (by decide) fgc bgc fa c false h2
+      obtain ⟨code', hcode', hdec⟩ := hT.fg c h2
+      have : code = code' := by
+        have := hcode; simp at this; rw [hcode'] at this; cases this; rfl
+      subst this
+      rw [hcc, if_neg h1, if_pos h2]
+      simp [sgr_fgcode T st code c hdec]
+    · have hh := valid_cases T c hc h1 h2
+      rw [colorCodes_d8 T hT sp hsp fgc bgc fa c false hh, if_neg h1, if_neg h2]
+      simp [sgr_256_fg T hT]
+
+theorem decColor8_bg (T : Tables) (hT : EncDecOk T) (sp : Char → Bool) (hsp : SpOk sp)
+    (fgc bgc fa c : Text) (hc : ValidColor T c) (st : Sgr) (hst : st.bgcolor = none) (rest : List Nat) :
+    sgrLoop T st ((colorCodes T sp .d8 fgc bgc fa c true).1 ++ rest) =
+      sgrLoop T { st with bgcolor := decColor8 T c } rest := by
+  unfold decColor8
+  by_cases h1 : c = [] ∨ c = kwDefault
+  · rw [colorCodes_noColor T hT sp hsp .d8 fgc bgc fa c true h1, if_pos h1]
+    simp [← hst]
+  · by_cases h2 : c ∈ T.ansiNames
+    · obtain ⟨code, hcode, hcc⟩ := colorCodes_name T hT sp .d8 (by decide) fgc bgc fa c true h2
+      obtain ⟨code', hcode', hdec0, hdec⟩ := hT.bg c h2
+      have : code = code' := by
+        have := hcode; simp at this; rw [hcode'] at this; cases this; rfl
+      subst this
+      rw [hcc, if_neg h1, if_pos h2]
+      simp [sgr_bgcode T st code c hdec0 hdec]
+    · have hh := valid_cases T c hc h1 h2
+      rw [colorCodes_d8 T hT sp hsp fgc bgc fa c true hh, if_neg h1, if_neg h2]
+      simp [sgr_256_bg T hT]
+
+/-- the decoder state after an 8-bit escape for `a` -/
+def sgrOf8 (T : Tables) (a : Attrs) : Sgr :=
+  { color := decColor8 T (a.color.getD []), bgcolor := decColor8 T (a.bgcolor.getD []),
+    bold := truthy a.bold, underline := truthy a.underline, strike := truthy a.strike,
+    italic := truthy a.italic, blink := truthy a.blink, reverse := truthy a.reverse,
+    hidden := truthy a.hidden }
+
+/-- **8-bit depth, decoded.**  The parameters emitted at 8-bit depth decode to the same flags, the
+    same named colours, and for an RGB colour to the decoder's entry for the palette index chosen
+    by the 256-colour map. -/
+theorem sgr_decode_8bit (T : Tables) (hT : EncDecOk T) (sp : Char → Bool) (hsp : SpOk sp)
+    (a : Attrs) (hv : ValidAttrs T a) (st0 : Sgr) :
+    selectGraphicRendition T st0 (0 :: sgrCodes T sp .d8 a) = sgrOf8 T a := by
+  unfold selectGraphicRendition
+  simp only [List.isEmpty_cons, Bool.false_eq_true, if_false]
+  rw [sgr_reset T hT, sgrCodes_eq]
+  unfold colorsToCode
+  dsimp only
+  obtain ⟨h1, h2⟩ := decColor8_fg T hT sp hsp (a.color.getD []) (a.bgcolor.getD []) [] (a.color.getD []) hv.1
+    {} rfl ((colorCodes T sp .d8 (a.color.getD []) (a.bgcolor.getD []) [] (a.bgcolor.getD []) true).1 ++ flagCodes a)
+  rw [h2, List.append_assoc, h1, decColor8_bg T hT sp hsp _ _ _ _ hv.2 _ rfl, sgr_flags T hT]
+  simp [sgrOf8]
+
+/-- **1-bit depth, decoded**: flags only, no colour -/
+theorem sgr_decode_1bit (T : Tables) (hT : EncDecOk T) (sp : Char → Bool) (a : Attrs) (st0 : Sgr) :
+    selectGraphicRendition T st0 (0 :: sgrCodes T sp .d1 a) =
+      { color := none, bgcolor := none, bold := truthy a.bold, underline := truthy a.underline,
+        strike := truthy a.strike, italic := truthy a.italic, blink := truthy a.blink,
+        reverse := truthy a.reverse, hidden := truthy a.hidden } := by
+  unfold selectGraphicRendition
+  simp only [List.isEmpty_cons, Bool.false_eq_true, if_false]
+  rw [sgr_reset T hT, sgrCodes_eq, colorsToCode_d1, List.nil_append, sgr_flags T hT]
+  simp
+end Ptk.C19
+
+namespace Ptk.C19
+open Ptk.Py
+
+/-- every name the 16-colour search can return is an ANSI colour name (so it has codes) -/
+structure Ansi16Ok (T : Tables) : Prop where
+  names : ∀ np ∈ T.ansiRgb, np.1 ∈ T.ansiNames
+  dflt : "ansidefault".toList ∈ T.ansiNames
+instance (T : Tables) : Decidable (Ansi16Ok T) :=
+  decidable_of_iff ((∀ np ∈ T.ansiRgb, np.1 ∈ T.ansiNames) ∧ "ansidefault".toList ∈ T.ansiNames)
+    ⟨fun h => ⟨h.1, h.2⟩, fun h => ⟨h.names, h.dflt⟩⟩
+
+theorem closest16_mem (tbl : List (Text × RGB)) (c : RGB) (ex : List Text) :
+    closest16 tbl c ex = "ansidefault".toList ∨ ∃ p, (closest16 tbl c ex, p) ∈ tbl := by
+  rw [closest16_eq]
+  rcases argmin_keyed (dist c) (tbl.filter (allowed16 c ex)) ("ansidefault".toList, infinity) with
+    ⟨h1, _⟩ | ⟨pre, kx, post, hl, hres, _⟩
+  · left; rw [h1]
+  · right
+    rw [hres]
+    refine ⟨kx.2, ?_⟩
+    have : kx ∈ tbl.filter (allowed16 c ex) := by rw [hl]; simp
+    exact (List.mem_filter.mp this).1
+
+theorem closest16_name (T : Tables) (h16 : Ansi16Ok T) (c : RGB) (ex : List Text) :
+    closest16 T.ansiRgb c ex ∈ T.ansiNames := by
+  rcases closest16_mem T.ansiRgb c ex with h | ⟨p, hp⟩
+  · rw [h]; exact h16.dflt
+  · exact h16.names _ hp
+
+/-- the colour the decoder holds after a 4-bit escape: the ANSI name itself, or the name chosen by
+    the 16-colour map (with `ex` excluded) -/
+def decColor4 (T : Tables) (ex : List Text) (c : Text) : Option Text :=
+  if c = [] ∨ c = kwDefault then none
+  else if c ∈ T.ansiNames then some c else some (closest16 T.ansiRgb (hexRgb c) ex)
+
+/-- `fg_ansi` after the foreground has been processed at 4-bit depth -/
+def fgAnsi4 (T : Tables) (c : Text) : Text :=
+  if c = [] ∨ c = kwDefault then [] else if c ∈ T.ansiNames then []
+  else closest16 T.ansiRgb (hexRgb c) []
+
+theorem decColor4_fg (T : Tables) (hT : EncDecOk T) (h16 : Ansi16Ok T) (sp : Char → Bool) (hsp : SpOk sp)
+    (fgc bgc c : Text) (hc : ValidColor T c) (st : Sgr) (hst : st.color = none) (rest : List Nat) :
+    sgrLoop T st ((colorCodes T sp .d4 fgc bgc [] c false).1 ++ rest) =
+      sgrLoop T { st with color := decColor4 T [] c } rest ∧
+    (colorCodes T sp .d4 fgc bgc [] c false).2 = fgAnsi4 T c := by
+  unfold decColor4 fgAnsi4
+  by_cases h1 : c = [] ∨ c = kwDefault
+  · rw [colorCodes_noColor T hT sp hsp .d4 fgc bgc [] c false h1, if_pos h1, if_pos h1]
+    simp [← hst]
+  · by_cases h2 : c ∈ T.ansiNames
+    · obtain ⟨code, hcode, hcc⟩ := colorCodes_name T hT sp .d4 (by decide) fgc bgc [] c false h2
+      obtain ⟨code', hcode', hdec⟩ := hT.fg c h2
+      have : code = code' := by
+        have := hcode; simp at this; rw [hcode'] at this; cases this; rfl
+      subst this
+      rw [hcc, if_neg h1, if_pos h2, if_neg h1, if_pos h2]
+      simp [sgr_fgcode T st code c hdec]
+    · have hh := valid_cases T c hc h1 h2
+      obtain ⟨code, hcode, hdec⟩ := hT.fg _ (closest16_name T h16 (hexRgb c) [])
+      rw [colorCodes_d4_fg T hT sp hsp fgc bgc [] c hh code hcode, if_neg h1, if_neg h2, if_neg h1, if_neg h2]
+      simp [sgr_fgcode T st code _ hdec]
+
+theorem decColor4_bg (T : Tables) (hT : EncDecOk T) (h16 : Ansi16Ok T) (sp : Char → Bool) (hsp : SpOk sp)
+    (fgc bgc fa c : Text) (hc : ValidColor T c) (st : Sgr) (hst : st.bgcolor = none) (rest : List Nat) :
+    sgrLoop T st ((colorCodes T sp .d4 fgc bgc fa c true).1 ++ rest) =
+      sgrLoop T { st with bgcolor := decColor4 T (if fgc != bgc then [fa] else []) c } rest := by
+  unfold decColor4
+  by_cases h1 : c = [] ∨ c = kwDefault
+  · rw [colorCodes_noColor T hT sp hsp .d4 fgc bgc fa c true h1, if_pos h1]
+    simp [← hst]
+  · by_cases h2 : c ∈ T.ansiNames
+    · obtain ⟨code, hcode, hcc⟩ := colorCodes_name T hT sp .d4 (by decide) fgc bgc fa c true h2
+      obtain ⟨code', hcode', hdec0, hdec⟩ := hT.bg c h2
+      have : code = code' := by
+        have := hcode; simp at this; rw [hcode'] at this; cases this; rfl
+      subst this
+      rw [hcc, if_neg h1, if_pos h2]
+      simp [sgr_bgcode T st code c hdec0 hdec]
+    · have hh := valid_cases T c hc h1 h2
+      obtain ⟨code, hcode, hdec0, hdec⟩ :=
+        hT.bg _ (closest16_name T h16 (hexRgb c) (if fgc != bgc then [fa] else []))
+      rw [colorCodes_d4_bg T hT sp hsp fgc bgc fa c hh code hcode, if_neg h1, if_neg h2]
+      simp [sgr_bgcode T st code _ hdec0 hdec]
+
+/-- the decoder state after a 4-bit escape for `a` -/
+def sgrOf4 (T : Tables) (a : Attrs) : Sgr :=
+  { color := decColor4 T [] (a.color.getD []),
+    bgcolor := decColor4 T
+      (if (a.color.getD []) != (a.bgcolor.getD []) then [fgAnsi4 T (a.color.getD [])] else [])
+      (a.bgcolor.getD []),
+    bold := truthy a.bold, underline := truthy a.underline, strike := truthy a.strike,
+    italic := truthy a.italic, blink := truthy a.blink, reverse := truthy a.reverse,
+    hidden := truthy a.hidden }
+
+/-- **4-bit depth, decoded.**  The parameters emitted at 4-bit depth decode to the same flags, the
+    same named colours, and for an RGB colour to the ANSI name chosen by the 16-colour map — for
+    the background with the name chosen for an RGB foreground excluded, unless both colour strings
+    are equal. -/
+theorem sgr_decode_4bit (T : Tables) (hT : EncDecOk T) (h16 : Ansi16Ok T) (sp : Char → Bool)
+    (hsp : SpOk sp) (a : Attrs) (hv : ValidAttrs T a) (st0 : Sgr) :
+    selectGraphicRendition T st0 (0 :: sgrCodes T sp .d4 a) = sgrOf4 T a := by
+  unfold selectGraphicRendition
+  simp only [List.isEmpty_cons, Bool.false_eq_true, if_false]
+  rw [sgr_reset T hT, sgrCodes_eq]
+  unfold colorsToCode
+  dsimp only
+  obtain ⟨h1, h2⟩ := decColor4_fg T hT h16 sp hsp (a.color.getD []) (a.bgcolor.getD []) (a.color.getD []) hv.1
+    {} rfl ((colorCodes T sp .d4 (a.color.getD []) (a.bgcolor.getD [])
+      (fgAnsi4 T (a.color.getD [])) (a.bgcolor.getD []) true).1 ++ flagCodes a)
+  rw [h2, List.append_assoc, h1, decColor4_bg T hT h16 sp hsp _ _ _ _ hv.2 _ rfl, sgr_flags T hT]
+  simp [sgrOf4]
+end Ptk.C19
